@@ -223,7 +223,7 @@ func H14_search() {
 	vi, err := seg.(segment.VectorSegment).InterpretVectorIndex("v", filtered, except)
 	vAssert(err == nil && vi != nil, "interpret")
 	q := vCatalogue[vChoice("q", vParam("nQueries", len(vCatalogue)))]
-	k := int64(vChoice("k", 4))
+	k := int64(vChoice("k", vParam("maxK", 4)))
 	if filtered {
 		var elig []uint64
 		isElig := make([]bool, nDocs)
